@@ -434,4 +434,447 @@ theorem fdtCompleted_silent (L : I.Law) (toi : Nat) (s s' : State σ) (id : Nat)
         · simp only []; rw [hobj]; exact h1.1
         · rw [hobj]; exact h1.1
 
+
+theorem fdtEntry_objects (I : ObjIface σ) (s : State σ) (id : Nat) :
+    (fdtEntry I s id).1.objects = s.objects := by
+  unfold fdtEntry
+  split <;> rfl
+
+theorem fdtDispatch_silent (L : I.Law) (toi : Nat) (s s' : State σ) (id : Nat) (f : FdtRecv σ)
+    (now : Int) (r : Res) (evs : List Ev) (h : fdtDispatch I s id f now = .ok (s', r, evs))
+    (hinv : InvT L toi s.objects) (hna : ∀ i, Ev.attach toi i ∉ evs) : StepSilent L toi s' evs := by
+  unfold fdtDispatch at h
+  split at h
+  · simp only [Except.ok.injEq, Prod.mk.injEq] at h
+    obtain ⟨rfl, _, rfl⟩ := h; exact ⟨hinv, Silent.nil⟩
+  · simp only [Except.ok.injEq, Prod.mk.injEq] at h
+    obtain ⟨rfl, _, rfl⟩ := h; exact ⟨hinv, Silent.nil⟩
+  · split at h
+    · cases h
+    · split at h
+      · cases h
+      · split at h
+        · cases h
+        · simp only [Except.ok.injEq, Prod.mk.injEq] at h
+          obtain ⟨rfl, _, rfl⟩ := h; exact ⟨hinv, Silent.nil⟩
+  · exact fdtCompleted_silent L toi s s' id r evs h hinv hna
+
+theorem pushFdtObj_silent (L : I.Law) (toi : Nat) (s s' : State σ) (p : Pkt) (now : Int)
+    (ans : FdtAns) (r : Res) (evs : List Ev) (h : pushFdtObj I s p now ans = .ok (s', r, evs))
+    (hinv : InvT L toi s.objects) (hna : ∀ i, Ev.attach toi i ∉ evs) : StepSilent L toi s' evs := by
+  unfold pushFdtObj at h
+  split at h
+  · split at h
+    · simp only [Except.ok.injEq, Prod.mk.injEq] at h
+      obtain ⟨rfl, _, rfl⟩ := h; exact ⟨hinv, Silent.nil⟩
+    · split at h <;>
+      · simp only [Except.ok.injEq, Prod.mk.injEq] at h
+        obtain ⟨rfl, _, rfl⟩ := h; exact ⟨hinv, Silent.nil⟩
+  · rename_i id _
+    split at h
+    · simp only [Except.ok.injEq, Prod.mk.injEq] at h
+      obtain ⟨rfl, _, rfl⟩ := h; exact ⟨hinv, Silent.nil⟩
+    · simp only [] at h
+      split at h
+      · simp only [Except.ok.injEq, Prod.mk.injEq] at h
+        obtain ⟨rfl, _, rfl⟩ := h
+        exact ⟨by rw [fdtEntry_objects]; exact hinv, Silent.nil⟩
+      · split at h
+        · cases h
+        · rename_i f hupd
+          refine fdtDispatch_silent L toi _ s' id f now r evs h ?_ hna
+          simp only []
+          rw [fdtEntry_objects]; exact hinv
+
+theorem push_silent (L : I.Law) (toi : Nat) (s s' : State σ) (p : Pkt) (now : Int)
+    (ans : FdtAns) (r : Res) (evs : List Ev) (h : push I s p now ans = .ok (s', r, evs))
+    (hinv : InvT L toi s.objects) (hna : ∀ i, Ev.attach toi i ∉ evs) : StepSilent L toi s' evs := by
+  unfold push at h
+  simp only [] at h
+  split at h
+  · refine pushFdtObj_silent L toi _ s' p now ans r evs h ?_ hna
+    split <;> exact hinv
+  · rename_i hp
+    refine pushObj_silent L toi _ s' p now r evs h hp ?_ hna
+    split <;> exact hinv
+
+theorem removeObjects_silent (L : I.Law) (toi : Nat) (s : State σ) (l : List Nat)
+    (h : InvT L toi s.objects) :
+    InvT L toi (removeObjects I s l).1.objects ∧ Silent toi (removeObjects I s l).2 := by
+  induction l generalizing s with
+  | nil => simp [removeObjects]; exact ⟨h, Silent.nil⟩
+  | cons t ts ih =>
+    simp only [removeObjects]
+    have h1 := removeObject_silent L toi { s with errors := s.errors.filter (· ≠ t) } t h
+    have h2 := ih (removeObject I { s with errors := s.errors.filter (· ≠ t) } t).1 h1.1
+    exact ⟨h2.1, h1.2.append h2.2⟩
+
+theorem cleanupFdt_objects {s s' : State σ} {now : Int} (h : cleanupFdt s now = .ok s') :
+    s'.objects = s.objects := by
+  unfold cleanupFdt at h
+  split at h
+  · cases h
+  · injection h with h; subst h; rfl
+
+theorem cleanup_silent (L : I.Law) (toi : Nat) (s s' : State σ) (now : Int) (stale : Nat → Bool)
+    (evs : List Ev) (h : cleanup I s now stale = .ok (s', evs)) (hinv : InvT L toi s.objects) :
+    StepSilent L toi s' evs := by
+  unfold cleanup at h
+  simp only [] at h
+  split at h
+  · cases h
+  · rename_i s2 hc
+    simp only [Except.ok.injEq, Prod.mk.injEq] at h
+    obtain ⟨rfl, rfl⟩ := h
+    have h1 : InvT L toi (cleanupObjects I s stale).1.objects ∧ Silent toi (cleanupObjects I s stale).2 := by
+      unfold cleanupObjects
+      split
+      · exact ⟨hinv, Silent.nil⟩
+      · exact removeObjects_silent L toi s _ hinv
+    exact ⟨by rw [cleanupFdt_objects hc]; exact h1.1, h1.2⟩
+
+/-- One call: if it emits no attach event for `toi`, it makes no writer call for `toi`, and the
+    object registered for `toi` (if any) stays unattached. -/
+theorem step_silent (L : I.Law) (toi : Nat) (s s' : State σ) (op : Op) (r : Res) (evs : List Ev)
+    (h : step I s op = .ok (s', r, evs)) (hinv : InvT L toi s.objects)
+    (hna : ∀ i, Ev.attach toi i ∉ evs) : StepSilent L toi s' evs := by
+  cases op with
+  | data d now ans =>
+    simp only [step, pushData] at h
+    split at h
+    · simp only [Except.ok.injEq, Prod.mk.injEq] at h
+      obtain ⟨rfl, _, rfl⟩ := h; exact ⟨hinv, Silent.nil⟩
+    · simp only [Except.ok.injEq, Prod.mk.injEq] at h
+      obtain ⟨rfl, _, rfl⟩ := h; exact ⟨hinv, Silent.nil⟩
+    · exact push_silent L toi s s' _ now ans r evs h hinv hna
+  | cleanup now stale =>
+    simp only [step] at h
+    split at h
+    · cases h
+    · rename_i s1 ev hc
+      simp only [Except.ok.injEq, Prod.mk.injEq] at h
+      obtain ⟨rfl, _, rfl⟩ := h
+      exact cleanup_silent L toi s _ now stale _ hc hinv
+
+
+/-! ### from "every usable instance does not list the TOI" to "no attach event for the TOI" -/
+
+/-- the instance does not list `toi` -/
+def NotListed (toi : Nat) (f : FdtRecv σ) : Prop := ∀ inst, f.inst = some inst → inst.getFile toi = none
+
+/-- every instance of the list that is usable at `now` does not list `toi` -/
+def Hexp (toi : Nat) (now : Int) (cur : List (FdtRecv σ)) : Prop :=
+  ∀ f ∈ cur, f.Usable now → NotListed toi f
+
+theorem attachAll_na (L : I.Law) (toi id : Nat) (inst : FdtAbs) (objs : List (Nat × σ))
+    (h : InvT L toi objs) (hnl : inst.getFile toi = none) :
+    ∀ i, Ev.attach toi i ∉ (attachAll I id inst objs).2.2 := by
+  induction objs with
+  | nil => intro i hm; simp [attachAll] at hm
+  | cons a r ih =>
+    obtain ⟨k, o⟩ := a
+    intro i hm
+    simp only [attachAll] at hm
+    have hr : InvT L toi r := fun k' o' hm => h k' o' (List.mem_cons_of_mem _ hm)
+    rcases List.mem_append.mp hm with hm | hm
+    · rcases List.mem_append.mp hm with hm | hm
+      · exact absurd hm (noAttach_wevs _ _ toi i)
+      · split at hm
+        · rename_i hok
+          simp at hm
+          obtain ⟨hk, _⟩ := hm
+          have hl := L.attach_lists o id inst hok
+          rw [(h k o (by simp)).1, ← hk, hnl] at hl
+          simp at hl
+        · simp at hm
+    · exact ih hr i hm
+
+theorem attachLatest_na (L : I.Law) (toi : Nat) (s : State σ) (h : InvT L toi s.objects)
+    (hnl : ∀ f r, s.fdtCurrent = f :: r → NotListed toi f) :
+    ∀ i, Ev.attach toi i ∉ (attachLatest I s).2 := by
+  intro i hm
+  cases hcur : s.fdtCurrent with
+  | nil => simp [attachLatest, hcur] at hm
+  | cons f r =>
+    cases hinst : f.inst with
+    | none => simp [attachLatest, hcur, hinst] at hm
+    | some inst =>
+      simp only [attachLatest, hcur, hinst] at hm
+      rcases List.mem_append.mp hm with hm | hm
+      · exact attachAll_na L toi f.fdtId inst s.objects h (hnl f r hcur inst hinst) i hm
+      · exact absurd hm (checkObjectStates_noAttach _ _ _ toi i)
+
+theorem createScan_na (L : I.Law) (toi : Nat) (now : Int) :
+    ∀ (l : List (FdtRecv σ)) (o o' : σ) (l' : List (FdtRecv σ)) (evs : List Ev),
+      createScan I toi now o l = .ok (o', l', evs) → L.toi o = toi → Hexp toi now l' →
+      ∀ i, Ev.attach toi i ∉ evs := by
+  intro l
+  induction l with
+  | nil =>
+    intro o o' l' evs h _ _ i hm
+    simp [createScan] at h
+    obtain ⟨_, _, rfl⟩ := h
+    simp at hm
+  | cons f r ih =>
+    intro o o' l' evs h ht hexp i hm
+    unfold createScan at h
+    split at h
+    · cases h
+    · rename_i f' hup
+      simp only [] at h
+      split at h
+      · rename_i o1 evs1 hatt
+        simp only [Except.ok.injEq, Prod.mk.injEq] at h
+        obtain ⟨rfl, rfl, rfl⟩ := h
+        -- a successful attempt contradicts `Hexp`
+        exfalso
+        by_cases hst : f'.st = .complete
+        · simp only [hst, ↓reduceIte] at hatt
+          split at hatt
+          · rename_i inst hinst
+            have hus := (updateExpired_complete hup hst).2
+            have hnl := hexp f' (by simp) hus inst hinst
+            have hok : (I.attachFdt o f'.fdtId inst).2.1 = true := by
+              injection hatt with hatt; rw [hatt]
+            have hl := L.attach_lists o f'.fdtId inst hok
+            rw [ht, hnl] at hl
+            simp at hl
+          · cases hatt
+        · simp [hst] at hatt
+      · rename_i o1 evs1 hatt
+        split at h
+        · cases h
+        · rename_i o2 r2 ev2 hrec
+          simp only [Except.ok.injEq, Prod.mk.injEq] at h
+          obtain ⟨rfl, rfl, rfl⟩ := h
+          have ho1 : ∃ inst, I.attachFdt o f'.fdtId inst = (o1, false, evs1) := by
+            split at hatt
+            · split at hatt
+              · rename_i inst _
+                exact ⟨inst, by simpa using hatt⟩
+              · cases hatt
+            · cases hatt
+          obtain ⟨inst, ho1⟩ := ho1
+          have htoi1 : L.toi o1 = toi := by
+            have := L.attach_toi o f'.fdtId inst
+            rw [ho1] at this; rw [this]; exact ht
+          rcases List.mem_append.mp hm with hm | hm
+          · exact absurd hm (noAttach_wevs _ _ toi i)
+          · exact ih _ _ _ _ hrec htoi1 (fun g hg => hexp g (List.mem_cons_of_mem _ hg)) i hm
+      · split at h
+        · cases h
+        · rename_i o2 r2 ev2 hrec
+          simp only [Except.ok.injEq, Prod.mk.injEq] at h
+          obtain ⟨rfl, rfl, rfl⟩ := h
+          exact ih _ _ _ _ hrec ht (fun g hg => hexp g (List.mem_cons_of_mem _ hg)) i hm
+
+theorem createObj_na (L : I.Law) (toi t : Nat) (s s' : State σ) (now : Int) (evs : List Ev)
+    (h : createObj I s t now = .ok (s', evs)) (hexp : Hexp toi now s'.fdtCurrent) :
+    ∀ i, Ev.attach toi i ∉ evs := by
+  unfold createObj at h
+  split at h
+  · cases h
+  · rename_i o cur ev hscan
+    simp only [Except.ok.injEq, Prod.mk.injEq] at h
+    obtain ⟨rfl, rfl⟩ := h
+    by_cases ht : t = toi
+    · subst ht
+      exact createScan_na L t now _ _ _ _ _ hscan (L.new_toi _ _) hexp
+    · intro i hm
+      exact ht (createScan_attach I t now _ _ _ _ _ hscan toi i hm).1.symm
+
+theorem pushObjCore_na (L : I.Law) (toi : Nat) (s s' : State σ) (p : Pkt) (now : Int) (r : Res)
+    (evs : List Ev) (h : pushObjCore I s p now = .ok (s', r, evs))
+    (hexp : Hexp toi now s'.fdtCurrent) : ∀ i, Ev.attach toi i ∉ evs := by
+  unfold pushObjCore at h
+  simp only [] at h
+  split at h
+  · cases h
+  · rename_i s1 e0 hc
+    have hs1 : Hexp toi now s1.fdtCurrent → ∀ i, Ev.attach toi i ∉ e0 := by
+      intro hx
+      split at hc
+      · exact createObj_na L toi _ _ _ _ _ hc hx
+      · simp only [Except.ok.injEq, Prod.mk.injEq] at hc
+        obtain ⟨rfl, rfl⟩ := hc
+        intro i hm; simp at hm
+    split at h
+    · simp only [Except.ok.injEq, Prod.mk.injEq] at h
+      obtain ⟨rfl, _, rfl⟩ := h
+      exact hs1 hexp
+    · rename_i o ho
+      simp only [Except.ok.injEq, Prod.mk.injEq] at h
+      obtain ⟨rfl, _, rfl⟩ := h
+      have hfr := checkObjectState_fdt I { s1 with objects := ainsert p.toi (I.push o p).1 s1.objects } p.toi
+      simp only [] at hfr
+      rw [hfr.1] at hexp
+      intro i hm
+      rcases List.mem_append.mp hm with hm | hm
+      · rcases List.mem_append.mp hm with hm | hm
+        · exact hs1 hexp i hm
+        · exact absurd hm (noAttach_wevs _ _ toi i)
+      · exact absurd hm (checkObjectState_noAttach _ _ _ toi i)
+
+theorem pushObj_na (L : I.Law) (toi : Nat) (s s' : State σ) (p : Pkt) (now : Int) (r : Res)
+    (evs : List Ev) (h : pushObj I s p now = .ok (s', r, evs))
+    (hexp : Hexp toi now s'.fdtCurrent) : ∀ i, Ev.attach toi i ∉ evs := by
+  unfold pushObj at h
+  split at h
+  · simp only [Except.ok.injEq, Prod.mk.injEq] at h
+    obtain ⟨_, _, rfl⟩ := h
+    intro i hm; simp at hm
+  · split at h
+    · simp only [Except.ok.injEq, Prod.mk.injEq] at h
+      obtain ⟨_, _, rfl⟩ := h
+      intro i hm; simp at hm
+    · exact pushObjCore_na L toi _ s' p now r evs h hexp
+
+theorem fdtCompleted_mem (I : ObjIface σ) (s s' : State σ) (id : Nat) (r : Res) (evs : List Ev)
+    (f : FdtRecv σ) (hf : alookup id s.fdtReceivers = some f)
+    (h : fdtCompleted I s id = .ok (s', r, evs)) : f ∈ s'.fdtCurrent := by
+  unfold fdtCompleted at h
+  simp only [] at h
+  split at h
+  · cases h
+  · rw [hf] at h
+    simp only [] at h
+    split at h
+    · cases h
+    · simp only [Except.ok.injEq, Prod.mk.injEq] at h
+      obtain ⟨rfl, _, _⟩ := h
+      generalize hs0 : ({ s with fdtReceivers := aerase id s.fdtReceivers, fdtCurrent := f :: s.fdtCurrent } : State σ) = s0
+      have hcur0 : s0.fdtCurrent = f :: s.fdtCurrent := by subst hs0; rfl
+      have h1 := attachLatest_fdt I s0
+      have h2 := gcObjectCompleted_fdt (attachLatest I s0).1
+      have h3 := updateCompletedCc_fdt (gcObjectCompleted (attachLatest I s0).1)
+      have hcur3 : (updateCompletedCc (gcObjectCompleted (attachLatest I s0).1)).1.fdtCurrent = f :: s.fdtCurrent := by
+        rw [h3.1, h2.1, h1.1, hcur0]
+      split
+      · rename_i hlen
+        simp only []
+        rw [hcur3] at hlen ⊢
+        exact mem_dropLast_head _ _ hlen
+      · rw [hcur3]; simp
+
+theorem fdtCompleted_na (L : I.Law) (toi : Nat) (s s' : State σ) (id : Nat) (now : Int) (r : Res)
+    (evs : List Ev) (f : FdtRecv σ) (hf : alookup id s.fdtReceivers = some f) (hu : f.Usable now)
+    (h : fdtCompleted I s id = .ok (s', r, evs)) (hinv : InvT L toi s.objects)
+    (hexp : Hexp toi now s'.fdtCurrent) : ∀ i, Ev.attach toi i ∉ evs := by
+  have hnl : NotListed toi f := hexp f (fdtCompleted_mem I s s' id r evs f hf h) hu
+  unfold fdtCompleted at h
+  simp only [] at h
+  split at h
+  · cases h
+  · rw [hf] at h
+    simp only [] at h
+    split at h
+    · cases h
+    · rename_i e0 hcb
+      simp only [Except.ok.injEq, Prod.mk.injEq] at h
+      obtain ⟨_, _, rfl⟩ := h
+      have he0 : NoAttach e0 := by
+        split at hcb
+        · split at hcb
+          · injection hcb with hcb; subst hcb; intro t i hm; simp at hm
+          · cases hcb
+        · injection hcb with hcb; subst hcb; exact NoAttach.nil
+      intro i hm
+      rcases List.mem_append.mp hm with hm | hm
+      · rcases List.mem_append.mp hm with hm | hm
+        · exact he0 toi i hm
+        · refine attachLatest_na L toi
+            { s with fdtReceivers := aerase id s.fdtReceivers, fdtCurrent := f :: s.fdtCurrent } hinv ?_ i hm
+          intro g r' hg
+          injection hg with hg _
+          subst hg; exact hnl
+      · exact updateCompletedCc_noAttach _ toi i hm
+
+theorem fdtDispatch_na (L : I.Law) (toi : Nat) (s s' : State σ) (id : Nat) (f : FdtRecv σ) (now : Int)
+    (r : Res) (evs : List Ev) (hf : alookup id s.fdtReceivers = some f)
+    (hu : f.st = .complete → f.Usable now)
+    (h : fdtDispatch I s id f now = .ok (s', r, evs)) (hinv : InvT L toi s.objects)
+    (hexp : Hexp toi now s'.fdtCurrent) : ∀ i, Ev.attach toi i ∉ evs := by
+  unfold fdtDispatch at h
+  split at h
+  · simp only [Except.ok.injEq, Prod.mk.injEq] at h
+    obtain ⟨_, _, rfl⟩ := h; intro i hm; simp at hm
+  · simp only [Except.ok.injEq, Prod.mk.injEq] at h
+    obtain ⟨_, _, rfl⟩ := h; intro i hm; simp at hm
+  · split at h
+    · cases h
+    · split at h
+      · cases h
+      · split at h
+        · cases h
+        · simp only [Except.ok.injEq, Prod.mk.injEq] at h
+          obtain ⟨_, _, rfl⟩ := h; intro i hm; simp at hm
+  · rename_i hst
+    exact fdtCompleted_na L toi s s' id now r evs f hf (hu hst) h hinv hexp
+
+theorem pushFdtObj_na (L : I.Law) (toi : Nat) (s s' : State σ) (p : Pkt) (now : Int) (ans : FdtAns)
+    (r : Res) (evs : List Ev) (h : pushFdtObj I s p now ans = .ok (s', r, evs))
+    (hinv : InvT L toi s.objects) (hexp : Hexp toi now s'.fdtCurrent) :
+    ∀ i, Ev.attach toi i ∉ evs := by
+  unfold pushFdtObj at h
+  split at h
+  · split at h
+    · simp only [Except.ok.injEq, Prod.mk.injEq] at h
+      obtain ⟨_, _, rfl⟩ := h; intro i hm; simp at hm
+    · split at h <;>
+      · simp only [Except.ok.injEq, Prod.mk.injEq] at h
+        obtain ⟨_, _, rfl⟩ := h; intro i hm; simp at hm
+  · rename_i id _
+    split at h
+    · simp only [Except.ok.injEq, Prod.mk.injEq] at h
+      obtain ⟨_, _, rfl⟩ := h; intro i hm; simp at hm
+    · simp only [] at h
+      split at h
+      · simp only [Except.ok.injEq, Prod.mk.injEq] at h
+        obtain ⟨_, _, rfl⟩ := h; intro i hm; simp at hm
+      · split at h
+        · cases h
+        · rename_i f hupd
+          refine fdtDispatch_na L toi _ s' id f now r evs (alookup_ainsert_self _ _ _) ?_ h ?_ hexp
+          · intro hst
+            split at hupd
+            · exact (updateExpired_complete hupd hst).2
+            · rename_i hne
+              injection hupd with hupd
+              subst hupd
+              exact absurd hst hne
+          · simp only []
+            rw [fdtEntry_objects]; exact hinv
+
+/-- One call: if every instance of `fdt_current` (after the call) that is usable at the call's time
+    does not list `toi`, the call attaches nothing to `toi` and makes no writer call for it. -/
+theorem step_quiet (L : I.Law) (toi : Nat) (s s' : State σ) (op : Op) (r : Res) (evs : List Ev)
+    (h : step I s op = .ok (s', r, evs)) (hinv : InvT L toi s.objects)
+    (hexp : Hexp toi op.now s'.fdtCurrent) :
+    InvT L toi s'.objects ∧ Silent toi evs ∧ ∀ i, Ev.attach toi i ∉ evs := by
+  have hna : ∀ i, Ev.attach toi i ∉ evs := by
+    cases op with
+    | data d now ans =>
+      simp only [step, pushData] at h
+      split at h
+      · simp only [Except.ok.injEq, Prod.mk.injEq] at h
+        obtain ⟨_, _, rfl⟩ := h; intro i hm; simp at hm
+      · simp only [Except.ok.injEq, Prod.mk.injEq] at h
+        obtain ⟨_, _, rfl⟩ := h; intro i hm; simp at hm
+      · unfold push at h
+        simp only [] at h
+        split at h
+        · refine pushFdtObj_na L toi _ s' _ now ans r evs h ?_ hexp
+          split <;> exact hinv
+        · exact pushObj_na L toi _ s' _ now r evs h hexp
+    | cleanup now stale =>
+      simp only [step] at h
+      split at h
+      · cases h
+      · rename_i s1 ev hc
+        simp only [Except.ok.injEq, Prod.mk.injEq] at h
+        obtain ⟨_, _, rfl⟩ := h
+        exact fun i => cleanup_noAttach I _ _ _ _ _ hc toi i
+  obtain ⟨h1, h2⟩ := step_silent L toi s s' op r evs h hinv hna
+  exact ⟨h1, h2, hna⟩
+
 end Flute.Recv
